@@ -93,7 +93,7 @@ def main(tier, seed):
         return p
 
     # ---- (i) quoted arguments
-    nsch = 10 if tier == "quick" else 800
+    nsch = 25 if tier == "quick" else 800
     for k in range(nsch):
         r = rng(seed, "c20/%d" % k)
         S = G.gen_schema(r, name="gq_%d" % k)
